@@ -336,7 +336,7 @@ def one_cycle(res, lab, rng, shape, n):
         rc.send(("answer", n))
         del rc
         gc.collect()
-        if not pairs.wait_until(lambda: "end" in got, 6.0) or got != [("answer", n), "end"]:
+        if not pairs.wait_until(lambda: "end" in got, 15.0) or got != [("answer", n), "end"]:
             res.violation("reply-channel-endmarker-withheld", f"cycle {n}: callback saw {got!r}")
     elif shape == "callback_then_local_close":
         got = []
@@ -345,7 +345,7 @@ def one_cycle(res, lab, rng, shape, n):
         rc.send(n)
         from vlib import pairs
 
-        pairs.wait_until(lambda: n in got, 6.0)
+        pairs.wait_until(lambda: n in got, 15.0)
         lc.close()
         if got != [n, "end"]:
             res.violation("callback-endmarker-missing-after-local-close", f"cycle {n}: {got!r}")
